@@ -830,6 +830,14 @@ def check_case(part, case: dict, crash: bool = True, only=None) -> None:
         k2 = rng.randrange(f1[0] + 1, len(tr))
         f = (f1, (k2, 0))
         runs.append((f, "exn", run_real(case, f, "exn")))
+    if use_model and case["api"] != "sharded":
+        # Model `image` (the "complete new bytes" of C08_new_is_image) vs the bytes the real fault-free save wrote
+        big = _big(case)
+        chunk = case.get("chunk", 1 << 20)
+        img = lean_batch([{"m": "asave.image", "tensors": [_tensor_json(t, off, chunk) for t, off in zip(big, _layout(big))]}])[0].get("r")
+        real_new = base_obs["files"].get(case["dest"])
+        if base_obs["raised"] is None and (real_new is None or real_new[1] != img):
+            part.disagree("image: model != bytes written by the fault-free save", {"case": case, "fault": None, "mode": "exn"}, img, real_new)
     reqs = [model_request(case, _as_list(f)) for f, mode, _ in runs if mode == "exn"] if use_model else []
     outs = iter(lean_batch(reqs)) if reqs else iter([])
     by_fault = {}
@@ -1159,6 +1167,29 @@ def _isolated(case: dict, crash: bool, only=None, timeout: int = 900) -> dict:
     return out
 
 
+def check_writeat(part, rng, n: int, base: str) -> None:
+    """Model `writeAt` vs a real file: write buf, seek(pos), write(bs), read back."""
+    reqs, real, cases = [], [], []
+    path = os.path.join(base, "writeat.bin")
+    for _ in range(n):
+        buf = [rng.randrange(256) for _ in range(rng.choice([0, 1, 3, 8, 20]))]
+        pos = rng.choice([0, 1, 2, 5, 8, 20, 27])
+        bs = [rng.randrange(256) for _ in range(rng.choice([0, 0, 1, 2, 7]))]
+        with open(path, "wb") as fh:
+            fh.write(bytes(buf))
+            fh.seek(pos)
+            fh.write(bytes(bs))
+        with open(path, "rb") as fh:
+            real.append(list(fh.read()))
+        reqs.append({"m": "asave.writeat", "buf": buf, "pos": pos, "bs": bs})
+        cases.append({"buf": buf, "pos": pos, "bs": bs})
+    os.remove(path)
+    for c, r, o in zip(cases, real, lean_batch(reqs)):
+        part.case(["writeat", c], nontrivial=bool(c["bs"]), api="writeAt", mode="pure")
+        if o.get("r") != r:
+            part.disagree("writeAt: model != real file", c, o, r)
+
+
 def _worker(args):
     import logging
 
@@ -1192,6 +1223,9 @@ def run(ctx: Ctx) -> None:
         cases.append(gen_variant(ctx.rng))
     base = tempfile.mkdtemp(prefix="c08run-")
     try:
+        wp = Part()
+        check_writeat(wp, ctx.rng, ctx.pick(300, 3000), base)
+        ctx.merge(wp)
         chunks = [cases[i::16] for i in range(16)]
         for part in pmap(_worker, [(c, True, base) for c in chunks if c]):
             ctx.merge(part)
